@@ -78,6 +78,9 @@ def run_shard(desc, R, tier):
         for N in range(1, hi + 1):
             for p in PARAM_GRIDS.get(name, []):
                 eval_point({'kind': 'w', 'name': name, 'N': N, 'params': p}, R)
+                if N in (8, 9):
+                    # a parametrised request must not leak into a later default request (sequence of two calls)
+                    eval_point({'kind': 'w', 'name': name, 'N': N, 'params': {}, 'after': p}, R)
         for kw in ALL_KEYWORDS:
             if kw not in DOCUMENTED.get(name, []):
                 eval_point({'kind': 'reject', 'name': name, 'N': 16, 'kw': kw}, R)
@@ -144,6 +147,11 @@ def eval_point(pt, R):
             R.viol('window_object', {'name': name, 'exc': type(e).__name__}, pt, repr(e), None, 'Window raised')
         return
     name, N, params = pt['name'], int(pt['N']), dict(pt['params'])
+    if pt.get('after'):
+        try:
+            spectrum.create_window(N, name, **dict(pt['after']))
+        except Exception:
+            pass
     feats = {'name': name, 'N': '1' if N == 1 else ('2' if N == 2 else ('odd' if N % 2 else 'even')), 'params': 'default' if not params else 'custom'}
     R.point(pt)
     R.calls()
